@@ -5,7 +5,7 @@ from .C14 import var_lists
 
 META = {
     "explanation": "(a) Variable.correct of each leaf type maps every finite / +inf / -inf candidate to a member; "
-                   "(b,c) the real _init_agent (base class and the 19 overrides, objective uninterpreted) returns an "
+                   "(b,c) the real _init_agent (also with an objective that edits its argument in place) (base class and the 19 overrides, objective uninterpreted) returns an "
                    "agent whose position is a member with exactly one coordinate per declared scalar variable, for "
                    "every variable list within the bound and candidates of length >= dimension; (d) Population / "
                    "OptimizationResult packaging keeps positions; (e) through the real optimize() with a scripted "
@@ -35,10 +35,10 @@ def ob_leaf(vname):
     return f
 
 
-def ob_funnel(names, cname, kind, extra=0, dname="min"):
+def ob_funnel(names, cname, kind, extra=0, dname="min", mutate=False):
     def f():
         with env(rng_deny=(cname == "base")):
-            fu = Funnel(names, cname, DIRS[dname], 1, kind=kind, extra_coords=extra)
+            fu = Funnel(names, cname, DIRS[dname], 1, kind=kind, extra_coords=extra, mutate=mutate)
             a = fu.run()
             if len(a.position) != len(fu.decls):
                 return Failure("position:wrong-number-of-coordinates", x=fu.x, position=a.position)
@@ -52,7 +52,7 @@ def ob_funnel(names, cname, kind, extra=0, dname="min"):
     return f
 
 
-def ob_optimize(names, mode, n_agents, cycles, dname):
+def ob_optimize(names, mode, n_agents, cycles, dname, mutate=False):
     def f():
         st = stubs.Stream("np")
         layers = [stubs.numpy_stream_layer(lambda: st)] + ([stubs.pool_layer()] if mode != "serial" else [])
@@ -60,7 +60,7 @@ def ob_optimize(names, mode, n_agents, cycles, dname):
             vs = build_vars(names)
             decls = leaf_decls(vs)
             # membership does not depend on the costs: concrete, pairwise different values keep the sorts fork-free
-            t = make_task(vs, lambda x, i: float((i * 7) % 11), minmax=DIRS[dname])
+            t = make_task(vs, lambda x, i: float((i * 7) % 11), minmax=DIRS[dname], mutate=mutate)
 
             def step(o, k):
                 new = [o._init_agent(sym_candidate(decls, prefix=f"c{k}.{j}.")) for j in range(n_agents)]
@@ -101,6 +101,10 @@ def obligations(tier):
         obs.append(Ob(f"funnel[{'+'.join(names)},{kind}]", ob_funnel(names, "base", kind), 300 if d <= 3 else 900))
     obs.append(Ob("funnel_extra_coords[C+D3]", ob_funnel(("C", "D3"), "base", "real", extra=2), 120))
     obs.append(Ob("funnel_max[C+D3]", ob_funnel(("C", "D3"), "base", "ext", dname="max"), 120))
+    # the objective is arbitrary user code and may edit its argument in place: reported positions must not alias it
+    for names in (("C", "D3"), ("P3",), ("CM2",)):
+        obs.append(Ob(f"funnel_mutating_objective[{'+'.join(names)}]", ob_funnel(names, "base", "real", mutate=True), 120))
+    obs.append(Ob("optimize_mutating_objective[C,serial]", ob_optimize(("C",), "serial", 2, 1, "min", mutate=True), 300))
     for cname in init_agent_overrides():
         obs.append(Ob(f"override[{cname}]", ob_funnel(("C", "D3"), cname, "ext"), 300))
     for names in (("C",), ("D3", "C")) + ((("P3",), ("B2",)) if th else ()):
